@@ -122,7 +122,8 @@ def to_abstract(rec):
 def call_driver(mode, arg, timeout=600):
     env = dict(os.environ, VERIF_REPO=os.environ.get("VERIF_REPO", "/repo"), VERIF_WTMP_TAG=str(os.getpid()))
     p = subprocess.run([sys.executable, "-B", os.path.join(os.path.dirname(drv.__file__), "privs.py"), mode],
-                       input=json.dumps(arg), capture_output=True, text=True, timeout=timeout, env=env)
+                       input=json.dumps(arg), capture_output=True, text=True, timeout=timeout, env=env,
+                       cwd="/")      # (a directory every user can stand in: the masters of some cases are not root)
     if p.returncode != 0 or not p.stdout.strip():
         raise RuntimeError("privs driver %s failed: %s" % (mode, p.stderr[-2000:]))
     return json.loads(p.stdout.strip().splitlines()[-1])
